@@ -2,6 +2,7 @@
 
 Library objects are cached per process, so several sessions of one world share the
 same group / parameter objects exactly as sessions of one application process do."""
+import sys
 import json
 
 from . import loader
@@ -159,9 +160,66 @@ _EPHEMERAL_LIVE = []     # [(weakref, address)]
 _EPHEMERAL_DEAD = []     # addresses
 
 
+_EPHEMERAL_RESERVED = []   # [(raw params object, [raw element objects])] sitting on a dead set's addresses
+
+
+def is_ephemeral(obj):
+    return any(wr() is obj for wr, _ in _EPHEMERAL_LIVE)
+
+
+def _grab(cls, addr, tries=2000):
+    """ask the allocator for objects of `cls` until the one at `addr` comes up (None if it does not)"""
+    spare = []
+    try:
+        for _ in range(tries):
+            o = object.__new__(cls)
+            if id(o) == addr:
+                return o
+            spare.append(o)
+    except TypeError:
+        pass
+    return None
+
+
+def addresses_of(P):
+    """(class, address) of an ephemeral parameter set and of the library objects it owns (M, N, S ...)"""
+    owned = []
+    for k, v in vars(P).items():
+        t = type(v)
+        if getattr(t, "__module__", "").startswith("spake2") and sys.getrefcount(v) <= 4:
+            owned.append((t, id(v)))
+    return (type(P), id(P)), owned
+
+
+def reserve_dead_addresses(main, owned):
+    """called by the executor right after a session that owned an ephemeral parameter set was dropped:
+    take the freed blocks back from the allocator before anything else does"""
+    o = _grab(*main)
+    if o is None:
+        return False
+    elems = [_grab(t, a, 400) for t, a in owned]
+    _EPHEMERAL_RESERVED.append((o, elems))
+    del _EPHEMERAL_RESERVED[:-8]
+    _EPHEMERAL_LIVE[:] = [(wr, a) for wr, a in _EPHEMERAL_LIVE if not (a == main[1] and wr() is None)]
+    return True
+
+
 def _ephemeral_params(cls, group, s):
     import gc
     import weakref
+    while _EPHEMERAL_RESERVED:
+        obj, elems = _EPHEMERAL_RESERVED.pop()
+        if type(obj) is cls:
+            # hand the owned objects' blocks back so that the constructor's first allocations receive
+            # them in the order it creates them (the allocator serves the most recently freed first)
+            for k in range(len(elems) - 1, -1, -1):
+                elems[k] = None
+            try:
+                obj.__init__(group, M=s["M"], N=s["N"], S=s["S"])
+            except TypeError:
+                break
+            _EPHEMERAL_LIVE.append((weakref.ref(obj), id(obj)))
+            return obj
     gc.collect()
     still = []
     for wr, addr in _EPHEMERAL_LIVE:
@@ -176,7 +234,7 @@ def _ephemeral_params(cls, group, s):
         if _EPHEMERAL_DEAD:
             dead = set(_EPHEMERAL_DEAD)
             spare = []
-            for _ in range(256):
+            for _ in range(4000):
                 o = cls.__new__(cls)
                 if id(o) in dead:
                     obj = o
